@@ -13,6 +13,11 @@ CATS = {0: MessageCategory.NORMAL, 1: MessageCategory.DELAYED, 2: MessageCategor
 CAT_TERM = {0: "Normal", 1: "DelayedC", 2: "DeadC"}
 
 
+import contextvars  # noqa: E402
+
+_CUR = contextvars.ContextVar("verif_cur_consumer", default=None)
+
+
 class RecQueue(asyncio.Queue):
     """asyncio.Queue that logs every get_nowait (= one poll of a NORMAL consumer)."""
 
@@ -21,19 +26,37 @@ class RecQueue(asyncio.Queue):
         self.events = events
 
     def get_nowait(self):
-        self.events.append(("get", CLOCK.now_us()))
+        self.events.append(("get", CLOCK.now_us(), _CUR.get()))
         return super().get_nowait()
 
 
-class RecDict(dict):
-    """dict that logs items() (= one __update_delayed pass)."""
+class RecList(list):
+    """list that logs the emptiness test made by every poll of a DEAD-category consumer."""
 
     def __init__(self, events: list) -> None:
         super().__init__()
         self.events = events
 
+    def __len__(self):
+        if _CUR.get() is not None:
+            self.events.append(("dpoll", CLOCK.now_us(), _CUR.get()))
+        return super().__len__()
+
+
+class RecDict(dict):
+    """dict that logs items() (= one __update_delayed pass) and the emptiness test of a DELAYED-category poll."""
+
+    def __init__(self, events: list) -> None:
+        super().__init__()
+        self.events = events
+
+    def __len__(self):
+        if _CUR.get() is not None:
+            self.events.append(("dpoll", CLOCK.now_us(), _CUR.get()))
+        return super().__len__()
+
     def items(self):
-        self.events.append(("update", CLOCK.now_us()))
+        self.events.append(("update", CLOCK.now_us(), _CUR.get()))
         return super().items()
 
 
@@ -49,6 +72,7 @@ class MemWorld:
         self.consumers: dict[int, object] = {}
         self.cspec: dict[int, tuple] = {}
         self.intern = ct.Interner()
+        self.book: dict[int, int] = {}      # id -> consumer it was last delivered to (harness bookkeeping)
 
     async def setup(self, consumers: dict) -> None:
         for q in self.qs:
@@ -56,11 +80,19 @@ class MemWorld:
             dq = self.w.mb.queues[f"q{q}"]
             dq.simple = RecQueue(self.events)
             dq.delayed = RecDict(self.events)
+            dq.dead = RecList(self.events)
         for c, (q, cat, topics) in consumers.items():
             cons = self.w.mb.get_consumer(f"q{q}", None if topics is None else [f"t{t}" for t in topics], None, CATS[cat])
             await cons.start()
             self.consumers[c] = cons
             self.cspec[c] = (q, cat, topics)
+
+    def owner_of(self, dq, m) -> int:
+        """Which consumer holds m: the queue's own record when it keeps one, else what the harness saw being delivered."""
+        tb = getattr(dq, "taken_by", None)
+        if tb is not None and m.key.id_ in tb:
+            return self.cnum(tb[m.key.id_])
+        return self.book.get(num(m.key.id_), -1)
 
     def cnum(self, obj) -> int:
         for c, o in self.consumers.items():
@@ -83,8 +115,8 @@ class MemWorld:
             pr = sorted(dq.processing, key=lambda m: num(m.key.id_))
             out += [len(pr)]
             for m in pr:
-                o = dq.taken_from.get(m.key.id_)
-                out += [num(m.key.id_), self.cnum(dq.taken_by.get(m.key.id_))]
+                o = getattr(dq, "taken_from", {}).get(m.key.id_)
+                out += [num(m.key.id_), self.owner_of(dq, m)]
                 out += [0] if o is None else ([2] if o == "dead" else [1, ct.us_of_dt(o)])
         return out
 
@@ -111,13 +143,35 @@ class MemWorld:
                 out += self.enc_msg(m)
         return out
 
+    def abstract(self) -> dict:
+        """Model-free view of the broker for the oracles: where every id is, with payload and parameters."""
+        places: dict[int, list] = {}
+        msgs: dict[int, tuple] = {}
+        for q in self.qs:
+            s = self.w.snapshot(f"q{q}")
+            dq = self.w.mb.queues[f"q{q}"]
+            for pos, m in enumerate(s["simple"]):
+                places.setdefault(num(m.key.id_), []).append(("simple", q, pos))
+                msgs[num(m.key.id_)] = (m.payload, m.parameters, num(m.key.topic))
+            for t, ms in dict.items(dq.delayed):
+                for m in ms:
+                    places.setdefault(num(m.key.id_), []).append(("delayed", q, ct.us_of_dt(t)))
+                    msgs[num(m.key.id_)] = (m.payload, m.parameters, num(m.key.topic))
+            for m in s["dead"]:
+                places.setdefault(num(m.key.id_), []).append(("dead", q, None))
+                msgs[num(m.key.id_)] = (m.payload, m.parameters, num(m.key.topic))
+            for m in dq.processing:
+                places.setdefault(num(m.key.id_), []).append(("held", q, self.owner_of(dq, m)))
+                msgs[num(m.key.id_)] = (m.payload, m.parameters, num(m.key.topic))
+        return {"places": places, "msgs": msgs}
+
     def held(self) -> dict:
         """id -> (consumer, queue) for everything in processing."""
         out = {}
         for q in self.qs:
             dq = self.w.mb.queues[f"q{q}"]
             for m in dq.processing:
-                out[num(m.key.id_)] = (self.cnum(dq.taken_by.get(m.key.id_)), q)
+                out[num(m.key.id_)] = (self.owner_of(dq, m), q)
         return out
 
     def msg_term(self, i, t, q, prio, payload, p) -> str:
@@ -145,9 +199,20 @@ def build_params(spec: dict, now: int):
                      ts=now + spec.get("ts", 0), ttl=spec.get("ttl"))
 
 
+class _Trace(list):
+    def __init__(self, base: list, mw) -> None:
+        super().__init__()
+        self.base, self.mw = base, mw
+
+    def append(self, e):  # noqa: A003
+        e["after"] = self.mw.abstract()
+        self.base.append(e)
+
+
 async def exec_ops(mw: MemWorld, ops: list, loop, terms: list, obs: list, trace: list) -> None:
     """Executes ops on the real broker of `mw`, appending MemBroker.v op terms, the observation and a trace."""
     mb = mw.w.mb
+    trace = _Trace(trace, mw)
     for o in ops:
         kind = o["op"]
         now = CLOCK.now_us()
@@ -194,31 +259,117 @@ async def exec_ops(mw: MemWorld, ops: list, loop, terms: list, obs: list, trace:
             cons = mw.consumers[c]
             mw.events.clear()
             got = None
+            tok = _CUR.set(c)
             try:
                 got = await asyncio.wait_for(cons.consume(), o.get("timeout", 0.0035))
             except asyncio.TimeoutError:
                 pass
+            finally:
+                _CUR.reset(tok)
+            if got is not None:
+                mw.book[num(got[0].id_)] = c
+            for i in mw.held():
+                if i not in held_before:
+                    mw.book.setdefault(i, c) if got is None else None
+                    if got is None:
+                        mw.book[i] = c
             held_after = mw.held()
             new = [i for i, (cc, qq) in held_after.items() if i not in held_before]
             delivered = num(got[0].id_) if got is not None else (new[0] if new else 0)
             tl = "[]" if topics is None else ct.zlist(topics)
-            polls = []
-            upd = False
-            t_upd = None
-            for ev, t in list(mw.events):
-                if ev == "update":
-                    upd, t_upd = True, t
-                elif ev == "get":
-                    polls.append((t, upd))
-                    upd = False
-            if cat != 0:
-                polls = [(t_upd, True)] if t_upd is not None else []
+            polls = [(t, u) for (_, t, u) in polls_of(mw, list(mw.events))]
             for j, (t, u) in enumerate(polls):
                 terms.append(f"(OPoll {c} {q} {CAT_TERM[cat]} {tl} {ct.Z(t)} {ct.B(u)})")
                 obs.append(delivered if j == len(polls) - 1 else 0)
             trace.append({"op": "consume", "c": c, "queue": q, "cat": cat, "topics": topics, "t": now, "polls": polls,
                           "delivered": delivered, "returned": got is not None, "got": got,
                           "t_return": CLOCK.now_us()})
+        elif kind == "consume_with_put":
+            # a consumer is already polling when a message is enqueued `after` seconds later
+            c = o["c"]
+            q, cat, topics = mw.cspec[c]
+            mw.events.clear()
+            p_holder = {}
+
+            async def do_put():
+                await asyncio.sleep(o["after"])
+                tnow = CLOCK.now_us()
+                p = build_params(o["params"], tnow)
+                k = key(f"m{o['id']}", f"t{o['topic']}", f"q{o['queue']}", 5)
+                await mb.enqueue(k, f"p{o['id']}", p)
+                p_holder["p"], p_holder["t"] = p, tnow
+                mw.events.append(("put_done", tnow, None))
+
+            async def do_consume():
+                tok = _CUR.set(c)
+                try:
+                    return await asyncio.wait_for(mw.consumers[c].consume(), o["timeout"])
+                except asyncio.TimeoutError:
+                    return None
+                finally:
+                    _CUR.reset(tok)
+
+            got, _ = await asyncio.gather(do_consume(), do_put())
+            if got is not None:
+                mw.book[num(got[0].id_)] = c
+            delivered = num(got[0].id_) if got is not None else 0
+            tl = "[]" if topics is None else ct.zlist(topics)
+            evs = list(mw.events)
+            cut_at = next((k_ for k_, ev in enumerate(evs) if ev[0] == "put_done"), len(evs))
+            before_p = polls_of(mw, evs[:cut_at])
+            all_p = polls_of(mw, evs)
+            after_p = all_p[len(before_p):]
+            for (_, t, u) in before_p:
+                terms.append(f"(OPoll {c} {q} {CAT_TERM[cat]} {tl} {ct.Z(t)} {ct.B(u)})")
+                obs.append(0)
+            if "p" in p_holder:
+                terms.append(f"(OPut {mw.msg_term(o['id'], o['topic'], o['queue'], 5, 'p%d' % o['id'], p_holder['p'])} {ct.Z(p_holder['t'])})")
+                terms[-1] = "Q" + terms[-1]     # Quiet: no snapshot right after a concurrent put
+                obs.append(0)
+            for j, (_, t, u) in enumerate(after_p):
+                terms.append(f"(OPoll {c} {q} {CAT_TERM[cat]} {tl} {ct.Z(t)} {ct.B(u)})")
+                obs.append(delivered if j == len(after_p) - 1 else 0)
+            trace.append({"op": "put", "id": o["id"], "t": p_holder.get("t", now), "applied": "p" in p_holder, "cancelled": False,
+                          "params": p_holder.get("p")})
+            trace.append({"op": "consume", "c": c, "queue": q, "cat": cat, "topics": topics, "t": now,
+                          "polls": [(t, u) for (_, t, u) in all_p], "delivered": delivered, "returned": got is not None,
+                          "got": got, "t_return": CLOCK.now_us(), "n_updates": sum(1 for (_, _, u) in all_p if u),
+                          "put_at": p_holder.get("t")})
+        elif kind == "consume_many":
+            # several consumers polling concurrently: polls interleave, each poll is attributed through a context variable
+            mw.events.clear()
+            results = {}
+
+            async def one(c):
+                _CUR.set(c)
+                try:
+                    results[c] = await asyncio.wait_for(mw.consumers[c].consume(), o.get("timeout", 0.0035))
+                except asyncio.TimeoutError:
+                    results[c] = None
+
+            await asyncio.gather(*(one(c) for c in o["cs"]))
+            for c, r_ in results.items():
+                if r_ is not None:
+                    mw.book[num(r_[0].id_)] = c
+            held_after = mw.held()
+            new = {i: cq for i, cq in held_after.items() if i not in held_before}
+            polls = polls_of(mw, list(mw.events))
+            last_poll = {}
+            for j, (c, t, u) in enumerate(polls):
+                last_poll[c] = j
+            for j, (c, t, u) in enumerate(polls):
+                q, cat, topics = mw.cspec[c]
+                tl = "[]" if topics is None else ct.zlist(topics)
+                terms.append(f"(OPoll {c} {q} {CAT_TERM[cat]} {tl} {ct.Z(t)} {ct.B(u)})")
+                d = 0
+                if last_poll[c] == j:
+                    got = results.get(c)
+                    mine = [i for i, (cc, qq) in new.items() if cc == c]
+                    d = num(got[0].id_) if got is not None else (mine[0] if mine else 0)
+                obs.append(d)
+            trace.append({"op": "consume_many", "cs": o["cs"], "t": now, "polls": polls,
+                          "delivered": {c: (None if r is None else num(r[0].id_)) for c, r in results.items()},
+                          "new_held": new, "t_return": CLOCK.now_us()})
         elif kind == "finish":
             c = o["c"]
             q, cat, topics = mw.cspec[c]
@@ -242,7 +393,8 @@ async def exec_ops(mw: MemWorld, ops: list, loop, terms: list, obs: list, trace:
 
 def finish_history(mw: MemWorld, terms: list, obs: list, trace: list) -> dict:
     obs = obs + [-7] + mw.enc_state() + [-8] + mw.enc_full()
-    term = f"({ct.zlist(mw.qs)}, {ct.lst(terms)})"
+    wrapped = [f"(Quiet {t[1:]})" if t.startswith("Q(") else f"(Obs {t})" for t in terms]
+    term = f"({ct.zlist(mw.qs)}, {ct.lst(wrapped)})"
     return {"term": term, "obs": obs, "trace": trace, "mw": mw, "n_model_ops": len(terms)}
 
 
@@ -254,6 +406,21 @@ async def run_history(hist: dict, loop) -> dict:
     terms, obs, trace = [], [], []
     await exec_ops(mw, hist["ops"], loop, terms, obs, trace)
     return finish_history(mw, terms, obs, trace)
+
+
+def polls_of(mw: MemWorld, events: list) -> list:
+    """(consumer, time, upd) for every poll, in the order they really happened."""
+    upd: dict = {}
+    polls = []
+    for name, t, c in events:
+        if c is None:
+            continue
+        cat = mw.cspec[c][1]
+        if name == "update":
+            upd[c] = True
+        elif (name == "get" and cat == 0) or (name == "dpoll" and cat != 0):
+            polls.append((c, t, upd.pop(c, False)))
+    return polls
 
 
 # ---------------- generator ----------------
@@ -287,8 +454,11 @@ def gen_history(rng, *, n_ops: int, cuts: bool = True, delays: bool = True, ttls
                         "cut": rng.choice([0, 1, 2, 3, 4]) if cuts and rng.random() < 0.12 else None})
             known[next_id] = (q, t)
             next_id += 1
-        elif r < 0.62:
+        elif r < 0.56:
             ops.append({"op": "consume", "c": rng.choice(list(consumers)), "timeout": rng.choice([0.0005, 0.0035, 0.0035, 0.0105])})
+        elif r < 0.62:
+            ops.append({"op": "consume_many", "cs": rng.sample(list(consumers), rng.randint(2, min(3, len(consumers)))),
+                        "timeout": rng.choice([0.0035, 0.0105])})
         elif r < 0.82:
             ops.append({"op": "terminal"})          # resolved at run time against what is held
         elif r < 0.88:
